@@ -151,6 +151,10 @@ fn path_strings(sb: &Sandbox, tier: Tier) -> Vec<String> {
     out.push("a/../../outer/secret.txt".to_string());
     out.push("../root/a".to_string());
     out.push("./../a".to_string());
+    // whitespace-padded forms of everything that must be refused or confined (a resolver that
+    // validates the raw string and uses a trimmed one, or the reverse)
+    let padded: Vec<String> = out.iter().filter(|p| p.starts_with('/') || p.contains("..")).flat_map(|p| [format!(" {p}"), format!("{p} ")]).collect();
+    out.extend(padded);
     out.sort();
     out.dedup();
     out
@@ -470,7 +474,7 @@ pub fn run(opts: Opts) -> i32 {
     report.set_rule(
         "path strings = every sequence of 1..2 (quick) / 1..3 (thorough) segments from {a, d, '..', '.', '', 'ä', 300x'x'} joined by '/', \
          each also with a trailing '/', as an absolute path anchored outside the root, as an absolute path anchored inside the root, and \
-         joined by '\\\\', plus 5 deeper escapes; every string is supplied as each of 14 path-taking arguments (read, write atomic/append/plain, \
+         joined by '\\\\', plus 5 deeper escapes, plus every absolute or '..'-containing string with a leading / trailing space; every string is supplied as each of 14 path-taking arguments (read, write atomic/append/plain, \
          ls, grep, patch add/delete/update/move-to, checkpoint create(+rewind), checkpoint rewind id, bash cwd, task cwd via POST /tasks) for \
          process cwd = root and != root; a case is distinct by (argument, path, cwd mode)",
     );
